@@ -188,3 +188,112 @@ def pvp_check(ctx):
     ctx.extra["cli_lines_typed"] = typed
     ctx.extra["cli_lines_accepted"] = accepted
     log("%s: command line: %d lines typed into `chess pvp` along %d scripted games, validated by TLC" % (ctx.prop, typed, len(labels["scripts"])))
+
+
+def parse_watch(text):
+    """turns printed by `chess watch`: (board, last move label, mover, half-move clock) and the final verdict"""
+    lines = text.splitlines()
+    turns, end = [], None
+    i = 0
+    board = None
+    while i < len(lines):
+        l = lines[i]
+        if l.startswith("  ┌"):
+            rows = []
+            j = i + 1
+            while j < len(lines) and len(rows) < 8:
+                if len(lines[j]) > 2 and lines[j][0] in "12345678" and "│" in lines[j]:
+                    cells = lines[j].split("│")[1:9]
+                    rows.append((int(lines[j][0]), [c.strip() for c in cells]))
+                j += 1
+            if len(rows) == 8 and all(len(c) == 8 for _, c in rows):
+                b = [0] * 64
+                ok = True
+                for rank, cells in rows:
+                    for f, ch in enumerate(cells):
+                        ch = ch if ch not in ("", "·") else "."
+                        if ch not in GLYPH:
+                            ok = False
+                        else:
+                            b[(rank - 1) * 8 + f] = GLYPH[ch]
+                board = b if ok else None
+            i = j
+            continue
+        if l.startswith("Last move: ") and board is not None:
+            last = l[len("Last move: "):].strip()
+            mover, hm = None, None
+            for k in range(i + 1, min(i + 8, len(lines))):
+                if lines[k].startswith("* Turn: "):
+                    mover = 1 if lines[k].strip().endswith("white") else 0
+                if lines[k].startswith("* Halfmove clock: "):
+                    hm = int(lines[k].split(":")[1])
+            if mover is not None and hm is not None:
+                turns.append({"b": board, "last": last, "mover": mover, "hm": hm})
+            board = None
+        for word in ("checkmate!", "stalemate!", "draw!"):
+            if l.strip() == word:
+                end = {"res": word[:-1], "msg": ""}
+        if l.startswith("error: "):
+            end = {"res": "error", "msg": l}
+        i += 1
+    return turns, end
+
+
+def watch_check(ctx, seconds):
+    """the engine-versus-engine game loop of the real binary, observed for `seconds` and validated turn by turn"""
+    binary = build_binary()
+    p = subprocess.Popen([binary, "watch", "--depth", "1"], stdout=subprocess.PIPE, stderr=subprocess.STDOUT)
+    buf = b""
+    t0 = time.time()
+    while time.time() - t0 < seconds:
+        r, _, _ = select.select([p.stdout], [], [], 0.5)
+        if r:
+            chunk = os.read(p.stdout.fileno(), 65536)
+            if not chunk:
+                break
+            buf += chunk
+        if p.poll() is not None and not r:
+            break
+    p.kill()
+    p.wait()
+    text = buf.decode("utf-8", "replace")
+    turns, end = parse_watch(text)
+    if len(turns) < 3:
+        raise ToolError("watch: only %d turns could be parsed from the game loop's output" % len(turns))
+    # a turn whose last lines were cut off by the kill is dropped by the parser; the verdict only counts if the process ended
+    trace = ctx.path("watch_trace.ndjson")
+    tables = ctx.path("watch_tables.ndjson")
+    harness(["record-trace", tables, "--scenario", "scripts", "--seed", 1])
+    import fen as fenlib
+    start = fenlib.parse("rnbqkbnr/pppppppp/8/8/8/8/PPPPPPPP/RNBQKBNR w KQkq -")
+    startobs = {"b": start["b"], "turn": 1, "cr": 15, "ep": 0, "hm": 0, "fm": 1, "key": [0, 0, 0, 0], "seen": 1,
+                "last": {"k": "-", "f": 0, "t": 0, "p": 0, "c": 0}}
+    n = 0
+    with open(trace, "w") as fo:
+        fo.write(open(tables).readline())
+        fo.write(json.dumps({"ev": "CliReset", "obs": startobs}) + "\n")
+        n += 1
+        for t in turns:
+            fo.write(json.dumps({"ev": "Watch", "b": t["b"], "last": t["last"], "mover": t["mover"], "hm": t["hm"], "obs": startobs}) + "\n")
+            n += 1
+        if end is not None and p.returncode is not None:
+            fo.write(json.dumps({"ev": "WatchEnd", "res": end["res"], "msg": end["msg"], "obs": startobs}) + "\n")
+            n += 1
+    r = tlc.run("Trace_Engine", "Trace_Engine.cfg", env={"TRACE": trace}, workers=1, want_records=True, stack="64m", heap="1500m", young="300m", timeout=1800)
+    if r.violated:
+        raise ToolError("Trace_Engine model invariant failed on the watch trace: %s" % r.violated)
+    if r.postcondition_failed or r.distinct != n + 1:
+        raise ToolError("watch trace not consumed completely (%d states, %d events)\n%s" % (r.distinct, n, r.tail))
+    ctx.states += r.distinct
+    ctx.transitions += r.generated
+    ctx.traces += 1
+    ctx.evaluations += len(turns)
+    lines = open(trace).read().splitlines()
+    for x in r.records:
+        if "bad" in x:
+            ev = json.loads(lines[x["bad"] - 1])
+            ctx.violation(x["why"], {"binding": "B2 engine-versus-engine game loop (chess watch), Trace_Engine Watch event", "turn_number": x["bad"] - 2,
+                                     "printed_move": ev.get("last"), "detail": x.get("x")}, sig={"ev": ev["ev"]})
+    ctx.extra["watch_turns_validated"] = len(turns)
+    ctx.extra["watch_verdict"] = end["res"] if end else "still playing when observation stopped"
+    log("%s: game loop: %d turns of `chess watch --depth 1` validated by TLC (%s)" % (ctx.prop, len(turns), ctx.extra["watch_verdict"]))
